@@ -5,5 +5,6 @@ int main(int argc, char **argv) {
     vf::opts o(argc, argv);
     vf::install_crash_handler();
     RUN("async_programs", 1, true, scn::async_programs(o, R, o.cases));
+    RUN("async_start_race", 2, true, scn::async_start_race(o, R, T, o.cases));
     return 0;
 }
